@@ -11,7 +11,7 @@ pub const C01_PAIRS: [&str; 8] = ["P8xP8", "T24xT24", "L200xB1", "A64xP8", "B1xB
 
 pub fn run(c: &mut Ctx) {
     c.run_scenarios(|c, idx, rng| {
-        let pair = C01_PAIRS[(idx % C01_PAIRS.len() as u64) as usize];
+        let pair = C01_PAIRS[(crate::util::mix(idx) % C01_PAIRS.len() as u64) as usize];
         for_pair!(pair, scenario(c, idx, rng));
     });
 }
